@@ -5,7 +5,7 @@ import asyncio
 import heapq
 from typing import Any, Awaitable, Callable, Dict, List, Optional
 
-from .common import (EventLog, FakeSSLObject, SimError, SpinError, build_config,
+from .common import (TICKS, EventLog, FakeSSLObject, SimError, SpinError, build_config,
                      make_socket_facts)
 
 SPIN_LIMIT = 400_000
@@ -29,6 +29,7 @@ class VirtualLoop(asyncio.SelectorEventLoop):
 
         def select(timeout: Optional[float] = None) -> list:
             self.iterations += 1
+            TICKS[0] += 1
             events = real_select(0)
             if events:
                 self._spin = 0
